@@ -61,7 +61,7 @@ def _step(draw, lay):
         return r and ['req:5', {'address': r[0], 'value': draw(st.sampled_from([0xFF00, 0]))}]
     if fc == 6:
         r = draw(_range(lay, t, 1))
-        return r and ['req:6', {'address': r[0], 'value': draw(gens.u16())}]
+        return r and ['req:6', {'address': r[0], 'value': draw(st.one_of(gens.u16(), gens.u16(), st.just(r[0]), st.just((r[0] + 1) & 0xFFFF)))}]
     if fc == 15:
         r = draw(_range(lay, t, 1968))
         return r and ['req:15', {'address': r[0], 'bits': draw(st.lists(st.booleans(), min_size=r[1], max_size=r[1]))}]
